@@ -370,18 +370,63 @@ def history_case(pool, steps, hashseed):
             'hashseed': hashseed}
 
 
-def confirm_batch_history(col, pool, order, res, target_id, pred, hashseed):
+CONFIRMED = set()        # history buckets already reported by this worker process
+PAIR_TRIES = 8
+
+
+def confirm_history(col, pool, step_lists, hashseed, guess, note=''):
+    """Decide whether an observed difference is a function of a recorded history.
+    step_lists: recorded histories (each ends with the target compilation), tried in
+    order; of each one first the two-step histories [one earlier compilation, target]
+    (the latest compilation per engine, at most PAIR_TRIES - cheap, and what most
+    history dependences reduce to), then the full list.  Each candidate is replayed in a
+    fresh interpreter and compared with the target compiled alone (check_case).
+    -> 'reported' | 'known' (bucket already reported by this process) | None."""
+    if guess in CONFIRMED:
+        col._fail_count[guess] += 1
+        return 'known'
+    tried = set()
+    for steps in step_lists:
+        steps = [list(x) for x in steps]
+        if not steps:
+            continue
+        tgt = steps[-1]
+        cands = []
+        engines = set()
+        for x in reversed(steps[:-1]):
+            if x[0] not in ('compile', 'compile_kept', 'again') or x[1] not in pool:
+                continue
+            e = engine_of(pool[x[1]])
+            if e in engines or len(cands) >= PAIR_TRIES:
+                continue
+            engines.add(e)
+            cands.append([['compile', x[1], x[2]], ['compile', tgt[1], tgt[2]]])
+        if len(steps) > 2 or not cands:
+            cands.append(steps)
+        for c in cands:
+            k = json.dumps(c)
+            if k in tried:
+                continue
+            tried.add(k)
+            case = history_case(pool, c, hashseed)
+            r = check_case(case)
+            if r:
+                for bkt, det in r:
+                    CONFIRMED.add(bkt)
+                    col.fail(bkt, case, note + det)
+                CONFIRMED.add(guess)
+                return 'reported'
+    return None
+
+
+def confirm_batch_history(col, pool, order, res, target_id, pred, hashseed, guess):
     """A batch observation differs from another configuration: is it a function of the
-    batch's own history?  Replays the batch prefix in a fresh interpreter and compares
-    with the target compiled alone (check_case).  -> True when reported as a failure."""
+    batch's own history?"""
     if target_id not in order:
-        return False
-    case = history_case(pool, batch_history_steps(order[target_id], res, target_id, pred),
-                        hashseed)
-    r = check_case(case)
-    for bkt, det in r:
-        col.fail(bkt, case, 'the compilations of one batch subprocess, replayed:\n' + det)
-    return bool(r)
+        return None
+    return confirm_history(
+        col, pool, [batch_history_steps(order[target_id], res, target_id, pred)], hashseed,
+        guess, 'the compilations of one batch subprocess, replayed:\n')
 
 
 def item_multiset(item, obs_list):
@@ -499,8 +544,9 @@ def shard(ctx, col):
                         for bkt, det in r:
                             col.fail(bkt, single, det)
                     elif confirm_batch_history(col, pool, base_order, base, it['id'], p,
-                                               hs0) or \
-                            confirm_batch_history(col, pool, alt_order, alt, it['id'], p, hs):
+                                               hs0, history_bucket(d, oa, ob)) or \
+                            confirm_batch_history(col, pool, alt_order, alt, it['id'], p, hs,
+                                                  history_bucket(d, oa, ob)):
                         # not the hash seed: one of the two batch subprocesses gives a
                         # text that depends on what it compiled before (reported there)
                         pass
@@ -574,7 +620,8 @@ def check_batch_singles(ctx, col, prm, items, pool, base, order, hs0, pick):
                      bool(before) and 'err' not in ob, labels + notes,
                      sample={'kind': 'batch_history', 'compiled_before': before,
                              'predicate': p, 'program': it['text'][:1500]})
-            if d and not confirm_batch_history(col, pool, order, base, it['id'], p, hs0):
+            if d and not confirm_batch_history(col, pool, order, base, it['id'], p, hs0,
+                                               history_bucket(d, ob, oa)):
                 col.inconc('batch_difference_not_reproduced_in_fresh_process')
                 col.notes.append('batch vs alone difference (%s) of %s %s not reproduced' % (
                     d[0], it['id'], p))
@@ -594,7 +641,6 @@ class Hist(object):
         self.process_log = []          # every step executed in this process so far
         self.steps = None
         self.session = None
-        self.failed_buckets = set()
 
     def begin(self):
         self.steps = []
@@ -658,32 +704,17 @@ class Hist(object):
             self.report(st_, b, o, d)
 
     def report(self, st_, b, o, d):
-        bucket_guess = history_bucket(d, b, o)
-        if bucket_guess in self.failed_buckets:
-            self.col._fail_count[bucket_guess] += 1
-            return
-
         # Two histories are involved in an in-process mismatch: the worker's own (this
         # state-machine run, preceded by every earlier run of the process) and the one
         # of the batch subprocess that produced the baseline text.  Each is replayed in
         # a fresh interpreter and compared with the target compiled alone.
-        for steps in (self.steps, self.process_log):
-            case = history_case(self.pool, steps, self.hs0)
-            r = check_case(case)
-            if r:
-                for bkt, det in r:
-                    self.failed_buckets.add(bkt)
-                    self.col.fail(bkt, case, det)
-                self.failed_buckets.add(bucket_guess)
-                return
-        if self.batch is not None and len(st_) > 2:
-            n0 = len(self.col.failures)
-            if confirm_batch_history(self.col, self.pool, self.batch[0], self.batch[1],
-                                     st_[1], st_[2], self.hs0):
-                self.failed_buckets.add(bucket_guess)
-                for f in self.col.failures[n0:]:
-                    self.failed_buckets.add(f['bucket'])
-                return
+        guess = history_bucket(d, b, o)
+        lists = [self.steps, self.process_log]
+        if self.batch is not None and len(st_) > 2 and st_[1] in self.batch[0]:
+            lists.append(batch_history_steps(self.batch[0][st_[1]], self.batch[1],
+                                             st_[1], st_[2]))
+        if confirm_history(self.col, self.pool, lists, self.hs0, guess):
+            return
         self.col.inconc('history_mismatch_not_reproduced_in_fresh_process')
         self.col.notes.append('in-process mismatch (%s) at %s not reproduced by replaying '
                               'the process log or the baseline batch in a fresh '
